@@ -132,14 +132,18 @@ def special_cases():
     out.append(("file breaks between two invocations", [({"Good.mo": GOOD}, ["-m", "Good"], ("return", 0)), ({"Good.mo": BAD}, ["-m", "Good"], ("return", 1))]))
     out.append(("file repaired between two invocations", [({"Good.mo": BAD}, ["-m", "Good"], ("return", 1)), ({"Good.mo": GOOD}, ["-m", "Good"], ("return", 0))]))
     out.append(("a class of a file that is gone in the second invocation", [({"A.mo": PKG, "B.mo": INP}, ["-m", "P.B"], ("return", 0)), ({"B.mo": None}, ["-m", "P.B"], ("return", 1))]))
+    # the same library reached through a directory whose path has a dot element (~/.local/share/..., .build/models)
+    out.append(("dotdir: two broken files below a dot directory", [({"B1.mo": BAD, "B2.mo": BAD}, [], ("return", 2))]))
+    out.append(("dotdir: valid model below a dot directory", [({"Good.mo": GOOD}, ["-m", "Good"], ("return", 0))]))
+    out.append(("dotdir: valid model below a dot directory, sympy", [({"Good.mo": GOOD}, ["-m", "Good", "-t", "sympy"], ("return", 0))]))
     out.append(("same with the sympy target", [({"A.mo": PKG, "B.mo": INP}, ["-m", "P.B", "-t", "sympy"], ("return", 0)), ({"B.mo": None}, ["-m", "P.B", "-t", "sympy"], ("return", 1))]))
     return out
 
 
 def judge_special(desc, steps):
     with tempfile.TemporaryDirectory() as tmp:
-        d = Path(tmp) / "lib"
-        d.mkdir()
+        d = (Path(tmp) / ".ws" / "lib") if desc.startswith("dotdir:") else (Path(tmp) / "lib")
+        d.mkdir(parents=True)
         out = Path(tmp) / "out"
         out.mkdir()
         cwd = os.getcwd()
